@@ -37,6 +37,7 @@ func c06LeaderProg(r *rand.Rand, client, n int, big bool) []Cmd {
 
 func runC06(w *World) {
 	w.drawWeights()
+	w.drawNet(w.knob)
 	w.cut = cutMode(w.knob("cut", 2))
 	for i := 0; i < 3; i++ {
 		w.addWebhook(simAddr(fmt.Sprintf("hook%d.sim:80", i)), nil)
@@ -181,6 +182,11 @@ func runC06(w *World) {
 	dialStep := map[string]int{}
 	staleSize := false // the stream connection's SERVER reply predates a rewrite of the leader's log
 	seenGrants := 0
+	// after a leader crash and until the follower's stream runs against the restarted leader, the
+	// follower still holds (and is measured against) what the crashed instance had streamed
+	var oldLM *LogModel
+	oldK := 0
+	awaitReconnect := false
 	trackConn := func() {
 		w.mu.Lock()
 		for _, c := range w.conns {
@@ -201,6 +207,7 @@ func runC06(w *World) {
 				if k, ok := dialAck[g[seenGrants].conn]; ok {
 					kConn = k
 					staleSize = false
+					awaitReconnect = false
 					for _, ss := range swapSteps {
 						if ss >= dialStep[g[seenGrants].conn] && ss <= g[seenGrants].step {
 							staleSize = true
@@ -230,19 +237,22 @@ func runC06(w *World) {
 		}
 		caughtUpSeen++
 		lm := rc.hc.lm
+		lo := kConn
+		if awaitReconnect {
+			lm, lo = oldLM, oldK
+		}
 		d := fi.digest()
-		if cmpOK && d == cmpDigest && len(lm.entries) == cmpN && kConn == cmpK {
+		if cmpOK && d == cmpDigest && len(lm.entries) == cmpN && lo == cmpK {
 			return
 		}
 		dump := fi.dump()
 		var firstErr error
-		lo := kConn
 		if lo > len(lm.entries) {
 			lo = len(lm.entries)
 		}
 		for k := len(lm.entries); k >= lo; k-- {
 			if err := compareDump(lm.states[k], dump, true); err == nil {
-				cmpOK, cmpDigest, cmpN, cmpK = true, d, len(lm.entries), kConn
+				cmpOK, cmpDigest, cmpN, cmpK = true, d, len(lm.entries), lo
 				return
 			} else if firstErr == nil {
 				firstErr = err
@@ -326,6 +336,11 @@ func runC06(w *World) {
 				w.stat("fault.crash_leader", 1)
 				// crash, verify the surviving log against the acknowledged history (C03's
 				// oracle), restart; the follower has to find its way back
+				rc.hc.lm.poll()
+				if !awaitReconnect {
+					oldLM, oldK = rc.hc.lm, kConn
+				}
+				awaitReconnect = true
 				if !rc.stopAndRestart(false) {
 					return
 				}
